@@ -65,6 +65,9 @@ PRODUCERS = [
      ["Cmp{n}()", "Cmp{n}()(1, 'a')", "Cmp{n}()[0]", "Cmp{n}() < 1"]),
     ("alias", 1, "import collections\nclass TreeNode{n}:\n  def __init__(self, label):\n    self.label = label\nNode{n} = TreeNode{n}\nmod{n} = collections\n",
      ["Node{n}('r')", "TreeNode{n}", "mod{n}.OrderedDict()", "Node{n}"]),
+    ("defaults", 1, "def mixed{n}(a, b=1, c='s', *, d=None, e=2.5):\n  return (a, b, c, d, e)\ndef posdef{n}(a, b=[1], /, c=b'b', *args, k=(1,), **kw):\n  return [a, b, c, k]\n",
+     ["mixed{n}(0)", "mixed{n}(0, 5.5)", "mixed{n}(0, 5.5, None)", "mixed{n}(0, d='x')", "mixed{n}(0, 5.5, e=None)",
+      "posdef{n}(0)", "posdef{n}(0, 1, 2, 3, k=None)", "mixed{n}", "posdef{n}"]),
     ("falsy", 1, "class Z{n}:\n  def __bool__(self):\n    return False\nclass L{n}:\n  def __len__(self):\n    return 0\nclass Pl{n}:\n  pass\nclass ZF{n}(Z{n}, Pl{n}):\n  pass\nclass ZS{n}(Pl{n}, Z{n}):\n  pass\nclass LS{n}(Pl{n}, L{n}):\n  pass\nclass ZD{n}(ZS{n}):\n  pass\n",
      ["ZS{n}()", "LS{n}()", "ZF{n}()", "ZD{n}()", "Z{n}()", "Pl{n}()"]),
     ("containers", 1, "", ["[1, 'a', None]", "{'k': (1, 2.5)}", "{1, 'a'}", "(1, ('a', [b'b']))", "[]", "{}", "(1.0, 2)", "((1.0,), 2)", "None", "1", "'s'"]),
